@@ -272,6 +272,38 @@ func c17Algebra(c *Ctx) {
 		}
 		c.Eval(2)
 	}
+	// in-place operations between copy-on-write RELATIVES (receiver and argument share buckets by pointer), followed
+	// by writes into every bucket of the receiver: the argument and the common origin must keep their models
+	if !c.Failed() && !ma.IsEmpty() {
+		for _, op := range binOps {
+			org := A.B.Clone()
+			org.SetCopyOnWrite(true)
+			rcv, arg := org.Clone(), org.Clone()
+			mr, mg := ma.Clone(), ma.Clone()
+			for k := 0; k < r.Intn(3); k++ { // they may diverge a little
+				x := edgeVal64(r, ma)
+				if r.Chance(0.5) {
+					rcv.Add(x)
+					mr.Add(x)
+				} else {
+					arg.Remove(x)
+					mg.Remove(x)
+				}
+			}
+			c.Step("in-place %s between two copy-on-write clones of one origin", op)
+			if c.Guard("64/"+op+"/inplace-relatives", func() { inplaceOp64(op, rcv, arg) }) {
+				return
+			}
+			want := modelOp(op, mr, mg)
+			if d := checkEq64(rcv, want); d != "" {
+				c.Fail("64/"+op+"/inplace-relatives/result", "%s in place between copy-on-write relatives: %s", op, d)
+				return
+			}
+			if !probeResult64(c, rcv, want, "64/"+op+"/inplace-relatives", []*roaring64.Bitmap{arg, org}, []*ISet{mg, ma}) {
+				return
+			}
+		}
+	}
 	c.Guard("64/shortcuts", func() {
 		and, or := ma.And(mb), ma.Or(mb)
 		if g := A.B.AndCardinality(B.B); g != and.Card() {
